@@ -249,4 +249,24 @@ def lib():
     L.showbias_mod = showbias_mod
     L.experimental = experimental
     _lib = L
+    global _warn0
+    _warn0 = list(warnings.filters)
     return L
+
+
+_warn0 = None
+
+
+def reset_process_env():
+    """Process-wide settings a library call may have left behind (NumPy error state, warnings filters, print
+    options) go back to the harness baseline at the start of every run, so that a run never depends on the runs
+    this worker happened to execute before it."""
+    import numpy as np
+
+    np.seterr(all="ignore")
+    if _warn0 is not None and warnings.filters != _warn0:
+        warnings.filters[:] = _warn0
+        if hasattr(warnings, "_filters_mutated"):
+            warnings._filters_mutated()
+    if np.get_printoptions()["precision"] != 8:
+        np.set_printoptions(precision=8)
